@@ -314,8 +314,8 @@ func Registered(sc *ServerConn) []string {
 	return out
 }
 
-// ControlConn returns the live connection on which the driver last queried system.local and which
-// carries a REGISTER (the driver's control connection), or nil.
+// ControlConn returns the live connection on which the driver last queried system.local (the driver's
+// control connection), or nil.
 func (cp *ControlPlane) ControlConn() *ServerConn {
 	cp.mu.Lock()
 	cands := []*ServerConn{cp.lastCtl}
@@ -333,24 +333,39 @@ func (cp *ControlPlane) ControlConn() *ServerConn {
 		if dead || sc.Cli.IsClosed() {
 			continue
 		}
-		if len(Registered(sc)) > 0 {
-			return sc
-		}
+		return sc
 	}
 	return nil
 }
 
-// PushEvents sends EVENT frames (stream -1) with the given bodies back to back on the control
-// connection; false if there is no live registered control connection.
+// eventType reads the event type ([string]) an EVENT body starts with.
+func eventType(body []byte) string {
+	r := &R{B: body}
+	return r.String()
+}
+
+// PushEvents sends EVENT frames (stream -1) with the given bodies back to back on the control connection — only
+// those whose event type the driver REGISTERed for on that connection, as a server does; false if there is no
+// live control connection.
 func (cp *ControlPlane) PushEvents(bodies ...[]byte) bool {
 	sc := cp.ControlConn()
 	if sc == nil {
 		return false
 	}
+	reg := map[string]bool{}
+	for _, t := range Registered(sc) {
+		reg[t] = true
+	}
 	var all []byte
 	for _, b := range bodies {
+		if !reg[eventType(b)] {
+			continue
+		}
 		f := &Frame{Version: byte(sc.Proto) | 0x80, Stream: -1, Op: OpEvent, Body: b}
 		all = append(all, f.Encode(sc.Proto)...)
+	}
+	if len(all) == 0 {
+		return true
 	}
 	return sc.WriteRaw(all) == nil
 }
